@@ -44,9 +44,18 @@ fn statement_dependencies(statement: &Statement) -> BTreeSet<usize> {
         }
         S::Ret { value: None, .. } => BTreeSet::new(),
 
-        S::Blob { .. }
-        | S::Enum { .. }
-        | S::ExternalDefinition { .. }
+        // A type has to be declared after the types its fields mention, or they are unknown to it.
+        S::Blob { var, fields: parts, .. } | S::Enum { var, variants: parts, .. } => {
+            let mut deps = parts
+                .values()
+                .map(|(_, ty)| ty_dependency(ty))
+                .flatten()
+                .collect::<BTreeSet<_>>();
+            deps.remove(var);
+            deps
+        }
+
+        S::ExternalDefinition { .. }
         | S::Break(..)
         | S::Continue(..)
         | S::Unreachable(..) => BTreeSet::new(),
@@ -217,10 +226,15 @@ fn order<'a>(
         };
 
         for dep in deps {
-            recurse(dep, to_order, inserted, ordered).map_err(|mut cycle| {
-                cycle.push(*statement);
-                cycle
-            })?;
+            let is_type = |s: &Statement| matches!(s, Statement::Blob { .. } | Statement::Enum { .. });
+            match recurse(dep, to_order, inserted, ordered) {
+                // Types may refer to each other - among those the order is free.
+                Err(cycle) if cycle.is_empty() && is_type(statement) => continue,
+                res => res.map_err(|mut cycle| {
+                    cycle.push(*statement);
+                    cycle
+                })?,
+            }
         }
         ordered.push(*statement);
         inserted.insert(global.clone(), State::Inserted);
